@@ -36,6 +36,15 @@
 #include "integrator_whfast.h"
 #include "integrator_bs.h"
 #include "collision.h"
+
+// Runs the collision search. Returns 1 if a collision was resolved during this search, i.e. if
+// particles were removed or bounced off each other. Such a step can not be undone.
+static int reb_integrator_trace_collision_search(struct reb_simulation* const r){
+    const unsigned int N_before = r->N;
+    const int64_t collisions_log_n_before = r->collisions_log_n;
+    reb_collision_search(r);
+    return (r->N != N_before || r->collisions_log_n != collisions_log_n_before);
+}
 #define MIN(a, b) ((a) > (b) ? (b) : (a))    ///< Returns the minimum of a and b
 #define MAX(a, b) ((a) > (b) ? (a) : (b))    ///< Returns the maximum of a and b
 
@@ -450,8 +459,7 @@ void reb_integrator_trace_bs_step(struct reb_simulation* const r, double dt){
             r->particles[0].vy = star.vy;
             r->particles[0].vz = star.vz;
             
-	    reb_collision_search(r);
-	    if (r->N_allocated_collisions) ri_trace->force_accept = 1;
+	    if (reb_integrator_trace_collision_search(r)) ri_trace->force_accept = 1;
 
             if (nbody_ode->length != ri_trace->encounter_N*3*2){
 		// Just re-create the ODE
@@ -736,8 +744,7 @@ static void reb_integrator_trace_step(struct reb_simulation* const r){
                     if (r->t+r->dt >  t_needed){
                         r->dt = t_needed-r->t;
                     }
-                    reb_collision_search(r);
-		    if (r->N_allocated_collisions) r->ri_trace.force_accept = 1;
+		    if (reb_integrator_trace_collision_search(r)) r->ri_trace.force_accept = 1;
                 }
                 // Resetting IAS15 here reduces binary file size.
                 reb_integrator_ias15_reset(r);
@@ -779,8 +786,7 @@ static void reb_integrator_trace_step(struct reb_simulation* const r){
 
                         reb_integrator_bs_update_particles(r, nbody_ode->y);
 
-                        reb_collision_search(r);
-		        if (r->N_allocated_collisions) r->ri_trace.force_accept = 1;
+		        if (reb_integrator_trace_collision_search(r)) r->ri_trace.force_accept = 1;
                     }
                     reb_ode_free(nbody_ode);
                     // Resetting BS here reduces binary file size
